@@ -1,14 +1,22 @@
-"""C11 - The dictionary view reports exactly what the profile says (structural part)."""
+"""C11 - The dictionary view reports exactly what the profile says (structural part).
+
+The rules locate their subjects by role (the collection tested for membership of a block path, the attribute that is
+compared with / assigned `hash(self.tree)`, the tree appended to `self.tree.children`, the bound method that is called)
+and evaluate them on facts that hold at a program point (`_facts_at`: dominating branch edges with inlined tests,
+conditional expressions, short-circuit operands, comprehension filters), so that spelling, temporaries, early returns,
+inverted tests, conditional expressions instead of if/else, hoisted constants and extracted helpers do not matter.
+"""
 
 from __future__ import annotations
 
 import ast
+import copy
 
 from csverif import tables
-from csverif.astutil import assignments_to, body_walk, compare_parts, const_eval, dotted, fn_calls, NotConst, params, src, statements
+from csverif.astutil import assignments_to, bind_args, body_walk, const_eval, dotted, fn_calls, module_env, names_in, NotConst, params, src, statements, strip_cast
 from csverif.cfg import ENTRY, EXIT
 from csverif.grammar import Grammar
-from csverif.q import FuncView, guarded_by, origin
+from csverif.q import FuncView, inline
 
 # list_props entries that are dead by construction (one line of reason each)
 DEAD_LIST_PROPS = {"stage.transform-x86.header": "stage_transform has no nested block, the path can never be a block stack"}
@@ -31,8 +39,12 @@ BUILDER_RULES = {
     "ExecuteOptionsBlock": ["execute_options"],
     "BeaconGateBlock": ["beacon_gate_options"],
 }
+# fallback only (used when the tree a helper appends cannot be read off its body): helper name -> strings / fixed name
 HELPER_ARITY = {"_enable": 0, "set_option": 1, "_pair": 2, "_header": 2, "_parameter": 2}
 HELPER_FIXED_NAME = {"_header": "header", "_parameter": "parameter"}
+
+MOD = "c2profile"
+TREE = "self.tree"  # the public attribute that holds the profile's parse tree
 
 
 def _c(node):
@@ -61,14 +73,284 @@ def block_aliases_of(g: Grammar, origins):
     return out
 
 
+# ---------------------------------------------------------------------------------------------- general helpers
+# (private; candidates for hoisting into csverif.q)
+_POS_OP = {ast.NotIn: ast.In, ast.NotEq: ast.Eq, ast.IsNot: ast.Is}
+
+
+def _inl(f, e, stop=frozenset()):
+    """`e` with every single-definition temporary of function f substituted (casts stripped)."""
+    return strip_cast(inline(f.node, e, stop=frozenset(stop)))
+
+
+def _atoms(test, pol, out):
+    """Decompose `test having truth value pol` into atomic facts (expr, polarity): negations pushed inwards, `and` under
+    True / `or` under False split, negative comparison operators (`not in`, `!=`, `is not`) turned into the positive
+    operator with the opposite polarity."""
+    while isinstance(test, ast.UnaryOp) and isinstance(test.op, ast.Not):
+        test, pol = test.operand, not pol
+    if isinstance(test, ast.BoolOp) and isinstance(test.op, ast.And) == pol:
+        for v in test.values:
+            _atoms(v, pol, out)
+        return
+    if isinstance(test, ast.Compare) and len(test.ops) == 1 and type(test.ops[0]) in _POS_OP:
+        test = ast.copy_location(ast.Compare(left=test.left, ops=[_POS_OP[type(test.ops[0])]()], comparators=test.comparators), test)
+        pol = not pol
+    out.append((test, pol))
+
+
+def _edge_facts(ctx, f, st, label):
+    out = []
+    _atoms(_inl(f, st.test), label == "true", out)
+    return out
+
+
+def _facts_at(ctx, f, node):
+    """Atomic facts (expr, polarity) known to hold whenever `node` is evaluated: tests of the if/while edges that
+    dominate its statement (temporaries inlined), tests of enclosing conditional expressions, earlier operands of
+    enclosing `and`/`or`, filters of enclosing comprehensions.  Outer facts come first, the innermost last."""
+    cfg = ctx.cfg(f)
+    fv = FuncView.of(f.node)
+    out = []
+    st = fv.stmt_of(node)
+    if st is not None and cfg.has(st):
+        target = cfg.node(st)
+        for n, s in cfg.stmt.items():
+            if isinstance(s, (ast.If, ast.While)):
+                for label in ("true", "false"):
+                    e = cfg.edge_node(s, label)
+                    if e != target and e in cfg.g and cfg.dominates(e, target):
+                        out.extend(_edge_facts(ctx, f, s, label))
+    chain = [node]
+    while chain[-1] is not st and id(chain[-1]) in fv.parent:
+        chain.append(fv.parent[id(chain[-1])])
+    inner = []
+    for child, par in zip(chain, chain[1:]):
+        here = []
+        if isinstance(par, ast.IfExp) and child is not par.test:
+            _atoms(_inl(f, par.test), child is par.body, here)
+        elif isinstance(par, ast.BoolOp) and child in par.values:
+            for v in par.values[: par.values.index(child)]:
+                _atoms(_inl(f, v), isinstance(par.op, ast.And), here)
+        elif isinstance(par, (ast.ListComp, ast.SetComp, ast.GeneratorExp, ast.DictComp)) and not isinstance(child, ast.comprehension):
+            for gen in par.generators:
+                for cond in gen.ifs:
+                    _atoms(_inl(f, cond), True, here)
+        inner = here + inner
+    return out + inner
+
+
+def _const(ctx, f, e):
+    """Constant value of expression e of function f: temporaries inlined, module-level constants and class attributes
+    (`self.X`, `cls.X`, `Class.X`) looked up; None if it is not a constant."""
+    mod = f.module
+    e = _inl(f, e)
+
+    class _Attrs(ast.NodeTransformer):
+        def visit_Attribute(self, node):
+            d = dotted(node)
+            if d and d.count(".") == 1:
+                head, attr = d.split(".")
+                cname = f.cls if head in ("self", "cls") else head if head in mod.classes else None
+                if cname:
+                    try:
+                        v = ctx.repo.class_attrs(f"{mod.name}.{cname}").get(attr)
+                    except Exception:
+                        v = None
+                    if v is not None:
+                        return copy.deepcopy(v)
+            return self.generic_visit(node)
+
+    e = _Attrs().visit(copy.deepcopy(e))
+    try:
+        return const_eval(e, module_env(mod))
+    except (NotConst, TypeError, KeyError, RecursionError):
+        return None
+
+
+def _baseline_funcs(modname):
+    """Qualified names of the functions of the baseline vocabulary (everything else is a helper somebody introduced)."""
+    from csverif.normalise import baseline
+
+    return set((baseline().get(modname) or {}).get("functions", []))
+
+
+def _scope(ctx, f):
+    """f and the helpers it calls that are not part of the baseline vocabulary and were left as functions (helpers the
+    normaliser could not inline, local closures)."""
+    base = _baseline_funcs(f.module.name)
+    out, work = [f], [f]
+    while work:
+        g = work.pop()
+        for c in fn_calls(g.node):
+            cal = ctx.rs.resolve_call(g, c)
+            h = cal.func if cal.kind == "func" else None
+            if h is not None and h.module.name == f.module.name and h.qualname not in base and h not in out:
+                out.append(h)
+                work.append(h)
+    return out
+
+
+def _eq_sides(atom):
+    if isinstance(atom, ast.Compare) and len(atom.ops) == 1 and isinstance(atom.ops[0], ast.Eq):
+        return atom.left, atom.comparators[0]
+    return None
+
+
+def _self_stores(fn):
+    """(statement, attribute, value) for every `self.<attribute> = value` (also as one of several targets or as an
+    element of a tuple assignment; value None when it cannot be paired)."""
+    out = []
+    for s in statements(fn):
+        if isinstance(s, ast.Assign):
+            pairs = []
+            for t in s.targets:
+                if isinstance(t, (ast.Tuple, ast.List)):
+                    if isinstance(s.value, (ast.Tuple, ast.List)) and len(s.value.elts) == len(t.elts):
+                        pairs.extend(zip(t.elts, s.value.elts))
+                    else:
+                        pairs.extend((te, None) for te in t.elts)
+                else:
+                    pairs.append((t, s.value))
+        elif isinstance(s, ast.AnnAssign) and s.value is not None:
+            pairs = [(s.target, s.value)]
+        elif isinstance(s, ast.AugAssign):
+            pairs = [(s.target, None)]
+        else:
+            continue
+        for t, v in pairs:
+            d = dotted(t) or ""
+            if isinstance(t, ast.Attribute) and d.startswith("self.") and d.count(".") == 1:
+                out.append((s, t.attr, v))
+    return out
+
+
+def _is_call(e, *names):
+    return isinstance(e, ast.Call) and (dotted(e.func) or "").split(".")[-1] in names
+
+
+def _is_tree_hash(e):
+    return _is_call(e, "hash") and len(e.args) == 1 and not e.keywords and dotted(e.args[0]) == TREE
+
+
+# ---------------------------------------------------------------------------------------------- trees built in code
+def _tree_parts(f, e):
+    """(data expression, children expression) of a `Tree(data, children)` construction (positional or keyword)."""
+    e = _inl(f, e)
+    if not _is_call(e, "Tree"):
+        return None
+    a = list(e.args)
+    kw = {k.arg: k.value for k in e.keywords if k.arg}
+    data = a[0] if a else kw.get("data")
+    kids = a[1] if len(a) > 1 else kw.get("children")
+    if data is None or kids is None:
+        return None
+    return _inl(f, data), _inl(f, kids)
+
+
+def _kids(f, kids):
+    """The child expressions of a literal children list, else None."""
+    kids = _inl(f, kids)
+    if isinstance(kids, (ast.List, ast.Tuple)) and not any(isinstance(x, ast.Starred) for x in kids.elts):
+        return [_inl(f, k) for k in kids.elts]
+    return None
+
+
+def _sym(f, e):
+    """A child as the grammar sees it: (name, is_terminal), name None if not a literal."""
+    e = _inl(f, e)
+    if _is_call(e, "Token"):
+        a = e.args[0] if e.args else {k.arg: k.value for k in e.keywords}.get("type")
+        return (_c(_inl(f, a)) if a is not None else None, True)
+    tp = _tree_parts(f, e)
+    if tp is not None:
+        return (_c(tp[0]), False)
+    return (None, None)
+
+
+def _is_string_tree(f, e):
+    """Tree("string", [Token("STRING", ..)]) - the grammar's `string: STRING`."""
+    tp = _tree_parts(f, e)
+    if tp is None or _c(tp[0]) != "string":
+        return False
+    ks = _kids(f, tp[1])
+    return ks is not None and len(ks) == 1 and _sym(f, ks[0]) == ("STRING", True)
+
+
+def _appended(f, receiver_ok):
+    """Expressions added to a list `R` with receiver_ok(dotted R): R.append(x), R.extend([x..]), R += [x..]."""
+    out = []
+    for c in fn_calls(f.node):
+        if isinstance(c.func, ast.Attribute) and c.func.attr in ("append", "extend") and len(c.args) == 1 and receiver_ok(dotted(_inl(f, c.func.value))):
+            if c.func.attr == "append":
+                out.append((c, dotted(_inl(f, c.func.value)), c.args[0]))
+            else:
+                ks = _kids(f, c.args[0])
+                out.extend((c, dotted(_inl(f, c.func.value)), k) for k in ks or [])
+    for s in statements(f.node):
+        if isinstance(s, ast.AugAssign) and isinstance(s.op, ast.Add) and receiver_ok(dotted(_inl(f, s.target))):
+            ks = _kids(f, s.value)
+            out.extend((s, dotted(_inl(f, s.target)), k) for k in ks or [])
+    return out
+
+
+def _helper_shape(ctx, f, depth=0):
+    """What a builder helper `h(self, option, value)` adds to self.tree.children: (fixed tree name or None when the
+    tree is named by the option parameter, number of children, every child is string[STRING]).  None if it cannot be
+    read off."""
+    ps = params(f.node)
+    if len(ps) < 3:
+        return None
+    app = _appended(f, lambda d: d == TREE + ".children")
+    if len(app) == 1:
+        tp = _tree_parts(f, app[0][2])
+        if tp is None:
+            return None
+        ks = _kids(f, tp[1])
+        if ks is None:
+            return None
+        strings = all(_is_string_tree(f, k) for k in ks)
+        if isinstance(tp[0], ast.Name) and tp[0].id == ps[1]:
+            return (None, len(ks), strings)
+        if isinstance(_c(tp[0]), str):
+            return (_c(tp[0]), len(ks), strings)
+        return None
+    if app or depth > 2:
+        return None
+    # delegation: `self.other(<name>, value)`
+    dele = []
+    for c in fn_calls(f.node):
+        cal = ctx.rs.resolve_call(f, c)
+        if cal.kind == "func" and cal.func is not None and cal.func.cls and (dotted(c.func) or "").startswith("self.") and len(params(cal.func.node)) >= 3:
+            dele.append((c, cal.func))
+    if len(dele) != 1:
+        return None
+    c, h = dele[0]
+    sh = _helper_shape(ctx, h, depth + 1)
+    if sh is None:
+        return None
+    if sh[0] is not None:
+        return sh
+    a = bind_args(c, h.node, skip_self=True).get(params(h.node)[1])
+    a = _inl(f, a) if a is not None else None
+    if isinstance(a, ast.Name) and a.id == ps[1]:
+        return (None, sh[1], sh[2])
+    if isinstance(_c(a), str):
+        return (_c(a), sh[1], sh[2])
+    return None
+
+
+# ============================================================================================================ run
 def run(ctx):
     rep = ctx.rep
     rep.explanation = (
-        "Static analysis of c2profile.py against the compiled grammar: every list_props entry is a keyword path of the "
-        "grammar ending in a list-valued block and the reference data-transform paths are covered; cache coherence of "
-        "as_dict by CFG dominance (cached dict returned only under a fresh hash comparison, hash and cache stored together "
-        "after the walk); every builder attribute bound to _enable/set_option/_pair names a grammar alias of arity 0/1/2 in "
-        "the rule of its block; tree shapes built by set_option / DataTransformBlock equal the grammar's kept symbols."
+        "Static analysis of c2profile.py against the compiled grammar: every entry of the collection of list-valued block paths "
+        "(the constant collection a block path is tested against in as_dict) is a keyword path of the grammar ending in a "
+        "list-valued block and the reference data-transform paths are covered; values under those paths are decoded with "
+        "string_token_to_bytes and STRING tokens are unquoted with [1:-1] where they are recognised; cache coherence of "
+        "as_dict on the CFG (every path to a return of the cached dictionary passes a fresh hash comparison or both stores; "
+        "hash and cache stored together after the walk); every builder attribute bound to a ConfigBlock helper names a grammar "
+        "alias of the arity the helper's tree has; tree shapes built by set_option / DataTransformBlock equal the grammar's kept symbols."
     )
     rep.not_decided = ["exactness and order of reported values for all profiles", "the token-stream stack machine's behaviour on variants",
                        "as_dict hands out its cache by reference (observation, not armed: the property speaks of modifications of the profile)"]
@@ -85,19 +367,38 @@ def run(ctx):
     ctx.import_obligations("R5", c10.r1, g)
 
 
+# ============================================================================================================= R1
+def _path_collection(v):
+    """A constant collection of block paths ('a.b' strings)?  -> list of paths."""
+    if isinstance(v, dict):
+        v = list(v)
+    if isinstance(v, (list, tuple, set, frozenset)) and v and all(isinstance(x, str) and "." in x for x in v):
+        return list(v) if isinstance(v, (list, tuple)) else sorted(v)
+    return None
+
+
+def _membership(ctx, f, atom):
+    """`x in <constant collection of block paths>` -> the paths, else None."""
+    if isinstance(atom, ast.Compare) and len(atom.ops) == 1 and isinstance(atom.ops[0], ast.In):
+        return _path_collection(_const(ctx, f, atom.comparators[0]))
+    return None
+
+
 def r1(ctx, g):
-    f = ctx.repo.func("c2profile.C2Profile.as_dict")
-    # the list of list-valued block paths: the list literal tested with `key in <list>` to decide about bytes decoding
-    lp_name = None
-    for n in body_walk(f.node):
-        if isinstance(n, ast.Compare) and isinstance(n.ops[0], ast.In) and isinstance(n.comparators[0], ast.Name):
-            d = [v for st, v in assignments_to(f.node, n.comparators[0].id)]
-            if len(d) == 1 and isinstance(d[0], (ast.List, ast.Tuple, ast.Set)) and d[0].elts and all(isinstance(_c(e), str) and "." in _c(e) for e in d[0].elts):
-                lp_name = n.comparators[0].id
-    lp = [v for st, v in assignments_to(f.node, lp_name)] if lp_name else []
-    props = list(_c(lp[0])) if len(lp) == 1 and _c(lp[0]) is not None else None
-    if not isinstance(props, list):
-        ctx.ob("R1", "TABLE", f, "list_props", False, "list_props is not a literal list")
+    f = ctx.repo.func(f"{MOD}.C2Profile.as_dict")
+    scope = _scope(ctx, f)
+    # the collection of list-valued block paths: the constant collection of 'a.b' strings a value is tested against with
+    # `in` / `not in` (a local list, a hoisted module/class constant, a tuple, a frozenset ...)
+    props = []
+    for h in scope:
+        for n in body_walk(h.node):
+            if isinstance(n, ast.Compare) and len(n.ops) == 1 and isinstance(n.ops[0], (ast.In, ast.NotIn)):
+                got = _path_collection(_const(ctx, h, n.comparators[0]))
+                for p in got or []:
+                    if p not in props:
+                        props.append(p)
+    if not props:
+        ctx.undecided("R1", "TABLE", f, "list_props", "no membership test of a block path against a constant collection of paths located in as_dict")
         return
     paths = g.keyword_paths()
     list_bodies = {"data_transform", "execute_options", "stage_transform"}
@@ -113,151 +414,460 @@ def r1(ctx, g):
     ctx.ob("R1", "TABLE", f, "list_props covers reference", not missing, f"reference list-valued paths missing from list_props: {missing}")
     for p in sorted(need):
         ctx.ob("R1", "GRAM", "c2profile.lark", f"path {p}", p in paths, f"reference path {p!r} exists in the grammar={p in paths}", nontrivial=False)
-    # values under those keys are decoded to bytes
-    dec = [c for c in fn_calls(f.node) if dotted(c.func) == "string_token_to_bytes"]
-    ok = bool(dec) and all(guarded_by(ctx, f, c, lambda t: True if any(isinstance(op, ast.In) and dotted(r) == lp_name for l, op, r in compare_parts(t)) else None) for c in dec)
-    ctx.ob("R1", "AGREE", f, "string_token_to_bytes under `key in list_props`", ok, "list-valued entries are decoded to bytes" if ok else "list_props values are not decoded with string_token_to_bytes")
+    # values under those keys are decoded to bytes: every use of string_token_to_bytes (called, or handed to map()) happens
+    # where `path in list_props` is known to hold
+    refs = []
+    for h in scope:
+        for n in body_walk(h.node):
+            if (isinstance(n, ast.Name) and n.id == "string_token_to_bytes") or (isinstance(n, ast.Attribute) and n.attr == "string_token_to_bytes"):
+                refs.append((h, n))
+    bad = [src(FuncView.of(h.node).stmt_of(n))[:60] for h, n in refs if not any(pol and _membership(ctx, h, a) for a, pol in _facts_at(ctx, h, n))]
+    ok = bool(refs) and not bad
+    ctx.ob("R1", "AGREE", f, "string_token_to_bytes under `key in list_props`", ok, "list-valued entries are decoded to bytes" if ok else
+           ("the statements of list-valued blocks are not decoded with string_token_to_bytes" if not refs else f"string_token_to_bytes used where the path is not known to be list-valued: {bad}"))
     # STRING tokens are unquoted by removing exactly the first and the last character, the way the grammar delimits them
-    # (and string_token_to_bytes does): [1:-1]; strip()/replace() would eat quotes that belong to the value
-    unq = [n for n in body_walk(f.node) if isinstance(n, ast.Subscript) and isinstance(n.slice, ast.Slice) and isinstance(n.value, ast.Call) and dotted(n.value.func) == "str"
-           and _c(n.slice.lower) == 1 and _c(n.slice.upper) == -1]
-    other = [src(c)[:40] for c in fn_calls(f.node) if isinstance(c.func, ast.Attribute) and c.func.attr in ("strip", "lstrip", "rstrip", "replace", "removeprefix", "removesuffix")]
-    ctx.ob("R1", "AGREE", f, "STRING tokens unquoted with [1:-1]", len(unq) >= 2 and not other, f"{len(unq)} `str(token)[1:-1]` sites; other string surgery on tokens: {other}")
+    # (and string_token_to_bytes does): [1:-1]; strip()/replace() would eat quotes that belong to the value.  Subject: every
+    # place that recognises a STRING token (`X.type == "STRING"` holds) - there the text of X must be sliced [1:-1].
+    def string_fact(atom):
+        s = _eq_sides(atom)
+        if s:
+            for a, b in (s, s[::-1]):
+                if isinstance(a, ast.Attribute) and a.attr == "type" and _c(b) == "STRING":
+                    return a.value
+        return None
+
+    subjects = {}  # text of the tested token expression -> covered by a [1:-1] site?
+    for h in scope:
+        for n in body_walk(h.node):
+            if isinstance(n, ast.Compare) and len(n.ops) == 1 and isinstance(n.ops[0], (ast.Eq, ast.NotEq)):
+                at = []
+                _atoms(_inl(h, n), True, at)
+                x = string_fact(at[0][0])
+                if x is not None:
+                    subjects.setdefault((h.fq, src(x)), False)
+    surgery = []
+    for h in scope:
+        for n in body_walk(h.node):
+            base = None
+            if isinstance(n, ast.Subscript) and isinstance(n.slice, ast.Slice) and _c(n.slice.lower) == 1 and n.slice.step is None and (
+                    _c(n.slice.upper) == -1 or (isinstance(n.slice.upper, ast.BinOp) and isinstance(n.slice.upper.op, ast.Sub) and _c(n.slice.upper.right) == 1 and _is_call(n.slice.upper.left, "len"))):
+                base, site = _inl(h, n.value), True
+            elif isinstance(n, ast.Call) and isinstance(n.func, ast.Attribute) and n.func.attr in ("strip", "lstrip", "rstrip", "replace", "removeprefix", "removesuffix", "translate"):
+                base, site = _inl(h, n.func.value), False
+            if base is None:
+                continue
+            for a, pol in _facts_at(ctx, h, n):
+                x = string_fact(a) if pol else None
+                if x is not None and names_in(x) & names_in(base):
+                    if site:
+                        subjects[(h.fq, src(x))] = True
+                    else:
+                        surgery.append(src(n)[:40])
+    if not subjects:
+        ctx.undecided("R1", "AGREE", f, "STRING tokens unquoted with [1:-1]", "no place that recognises STRING tokens (`X.type == 'STRING'`) located in as_dict")
+    else:
+        miss = sorted(x for (_q, x), cov in subjects.items() if not cov)
+        ctx.ob("R1", "AGREE", f, "STRING tokens unquoted with [1:-1]", not miss and not surgery,
+               f"{len(subjects)} place(s) recognise a STRING token; not followed by a [1:-1] slice of its text: {miss}; other string surgery on a recognised STRING token: {surgery}")
     ctx.rep.count("list_props_entries", len(props), floor=8)
     ctx.rep.count("grammar_block_paths", len(paths), floor=30)
 
 
+# ============================================================================================================= R2
 def r2(ctx):
-    f = ctx.repo.func("c2profile.C2Profile.as_dict")
+    f = ctx.repo.func(f"{MOD}.C2Profile.as_dict")
     cfg = ctx.cfg(f)
     fv = FuncView.of(f.node)
     rets = cfg.return_stmts()
-    cached = [r for r in rets if dotted(r.value) == "self._dict_cache"]
+    stores = _self_stores(f.node)
+    # roles: the hash attribute is the self attribute that is assigned a hash(..) / compared with hash(self.tree); the
+    # cache attribute is the other self attribute as_dict stores (and returns)
+    hash_attrs = {a for s, a, v in stores if v is not None and _is_call(_inl(f, v), "hash")}
+    if not hash_attrs:
+        for n in body_walk(f.node):
+            if isinstance(n, ast.Compare) and len(n.ops) == 1 and isinstance(n.ops[0], (ast.Eq, ast.NotEq)):
+                l, r = _inl(f, n.left), _inl(f, n.comparators[0])
+                for a, b in ((l, r), (r, l)):
+                    if _is_call(b, "hash") and isinstance(a, ast.Attribute) and dotted(a.value) == "self":
+                        hash_attrs.add(a.attr)
+    cache_attrs = {a for s, a, v in stores if a not in hash_attrs}
+    returned = {r.value.attr for r in rets if isinstance(r.value, ast.Attribute) and dotted(r.value.value) == "self"}
+    if len(cache_attrs) > 1 and cache_attrs & returned:
+        cache_attrs &= returned
+    if len(hash_attrs) != 1 or len(cache_attrs) != 1:
+        ctx.undecided("R2", "DOM", f, "dictionary cache", f"cannot locate the hash-keyed cache of as_dict (hash attribute candidates {sorted(hash_attrs)}, cache attribute candidates {sorted(cache_attrs)})")
+        return
+    HA, CA = next(iter(hash_attrs)), next(iter(cache_attrs))
+    sets_h = [(s, v) for s, a, v in stores if a == HA]
+    sets_c = [(s, v) for s, a, v in stores if a == CA]
 
-    def fresh_hash_eq(t):
-        for l, op, r in compare_parts(t):
-            if isinstance(op, ast.Eq) and {src(l), src(r)} == {"self._dict_hash", "hash(self.tree)"}:
-                return True
-            if isinstance(op, ast.NotEq) and {src(l), src(r)} == {"self._dict_hash", "hash(self.tree)"}:
-                return False
+    def fresh(atom):
+        s = _eq_sides(atom)
+        return bool(s) and any(dotted(a) == f"self.{HA}" and _is_tree_hash(b) for a, b in (s, s[::-1]))
+
+    fresh_edges = []
+    for n, s in cfg.stmt.items():
+        if isinstance(s, (ast.If, ast.While)):
+            for label in ("true", "false"):
+                if cfg.edge_node(s, label) in cfg.g and any(pol and fresh(a) for a, pol in _edge_facts(ctx, f, s, label)):
+                    fresh_edges.append(cfg.edge_node(s, label))
+    hn = [cfg.node(s) for s, _v in sets_h if cfg.has(s)]
+    cn = [cfg.node(s) for s, _v in sets_c if cfg.has(s)]
+
+    def is_cache(r):
+        v = r.value
+        if v is None:
+            return False
+        if dotted(v) == f"self.{CA}":
+            return True
+        if isinstance(v, ast.Name):
+            for s, sv in sets_c:
+                # `self.cache = result = dict(..)` or `result = dict(..); self.cache = result; return result`
+                same_stmt = isinstance(s, ast.Assign) and any(isinstance(t, ast.Name) and t.id == v.id for t in s.targets)
+                if (same_stmt or (isinstance(sv, ast.Name) and sv.id == v.id)) and cfg.dominates(cfg.node(s), cfg.node(r)):
+                    defs = [cfg.node(d) for d, _x in assignments_to(f.node, v.id) if isinstance(d, ast.stmt) and cfg.has(d) and d is not s]
+                    if not any(cfg.reaches(cfg.node(s), d) and cfg.reaches(d, cfg.node(r)) for d in defs):
+                        return True
+        return False
+
+    def cache_reads(r):
+        """The statements that read the cache attribute for return r: r itself, or - `result = self.cache ... return result` -
+        the definitions of the returned local (all of them must be reads of the cache or of the value stored into it)."""
+        if is_cache(r):
+            return [r]
+        v = r.value
+        if isinstance(v, ast.Name) and v.id not in params(f.node):
+            defs = assignments_to(f.node, v.id)
+            if defs and all(isinstance(d, ast.stmt) and cfg.has(d) and x is not None and (dotted(x) == f"self.{CA}" or any(src(x) == src(sv) for _s, sv in sets_c if sv is not None)) for d, x in defs):
+                return [d for d, x in defs if dotted(x) == f"self.{CA}"]
         return None
 
-    sets_h = [s for s in statements(f.node) if isinstance(s, ast.Assign) and dotted(s.targets[0]) == "self._dict_hash"]
-    sets_c = [s for s in statements(f.node) if isinstance(s, ast.Assign) and dotted(s.targets[0]) == "self._dict_cache"]
-    for r in cached:
-        early = guarded_by(ctx, f, r, fresh_hash_eq)
-        after_store = any(cfg.dominates(cfg.node(s), cfg.node(r)) for s in sets_c) and any(cfg.dominates(cfg.node(s), cfg.node(r)) for s in sets_h)
-        ctx.ob("R2", "DOM", f, "return self._dict_cache" + (" [early]" if early else " [after recompute]"), bool(early or after_store),
-               "cached dictionary returned under `self._dict_hash == hash(self.tree)`" if early else
-               "returned after both the hash and the cache were stored" if after_store else "cached dictionary returned without a fresh hash comparison", r)
-    ctx.ob("R2", "DOM", f, "returns", bool(cached) and len(cached) == len(rets), f"{len(rets)} returns, {len(cached)} of the cache")
-    ok = len(sets_h) == 1 and len(sets_c) == 1 and src(sets_h[0].value) == "hash(self.tree)"
-    walk_calls = [c for c in fn_calls(f.node) if isinstance(c.func, ast.Attribute) and c.func.attr == "_reconstruct"]
-    w_ok = len(walk_calls) == 1 and any(dotted(n) == "self.tree" for n in ast.walk(walk_calls[0]))
-    if ok and w_ok:
-        wst = fv.stmt_of(walk_calls[0])
-        ok = cfg.dominates(cfg.node(wst), cfg.node(sets_h[0])) and cfg.dominates(cfg.node(wst), cfg.node(sets_c[0]))
-        cv = origin(f.node, sets_c[0].value)
-        ok = ok and "properties" in src(sets_c[0].value)
-    fresh = len(sets_c) == 1 and isinstance(sets_c[0].value, ast.Call) and dotted(sets_c[0].value.func) == "dict" and len(sets_c[0].value.args) == 1
-    ctx.ob("R2", "AGREE", f, "cache is a plain dict copy", fresh, "the cached/returned view is dict(<collected properties>): a plain dictionary" if fresh else
-           f"the cached view is {src(sets_c[0].value) if sets_c else None}: handing out the collecting defaultdict lets a failed lookup add phantom keys to the view")
-    ctx.ob("R2", "AGREE", f, "hash and cache stored together after the walk", bool(ok and w_ok),
-           "hash(self.tree) and the walked properties of self.tree are stored together, after the walk" if ok and w_ok else "hash/cache are not stored together after walking self.tree")
-    init = ctx.repo.func("c2profile.C2Profile.__init__")
-    vals = {dotted(s.targets[0]): s.value for s in statements(init.node) if isinstance(s, ast.Assign)}
-    ok = isinstance(vals.get("self._dict_hash"), ast.Constant) and vals["self._dict_hash"].value is None and "self._dict_cache" in vals
-    ctx.ob("R2", "AGREE", init, "cache reset in __init__", ok, "a new profile starts with no cached dictionary" if ok else "__init__ does not reset the dictionary cache")
-    ft = ctx.repo.func("c2profile.C2Profile.from_text")
-    touch = [s for s in statements(ft.node) if isinstance(s, ast.Assign) and (dotted(s.targets[0]) or "").endswith(("_dict_hash", "_dict_cache"))]
+    reads = {id(r): cache_reads(r) for r in rets}
+    cached = [r for r in rets if reads[id(r)] is not None]
+    for r in [x for r in cached for x in reads[id(r)]]:
+        rn = cfg.node(r)
+        early = any(cfg.dominates(e, rn) for e in fresh_edges)
+        ok = not cfg.reaches(ENTRY, rn, avoiding=fresh_edges + hn) and not cfg.reaches(ENTRY, rn, avoiding=fresh_edges + cn)
+        after = any(cfg.dominates(n, rn) for n in hn) and any(cfg.dominates(n, rn) for n in cn)
+        ctx.ob("R2", "DOM", f, "return of the cached dictionary" + (" [early]" if early else " [after recompute]" if after else " [joined]"), ok,
+               ("cached dictionary returned under `self.%s == hash(self.tree)`" % HA) if ok and early else
+               "every path to this return passes a fresh comparison of the stored hash with hash(self.tree) or stores both the hash and the cache" if ok else
+               "cached dictionary can be returned without a fresh hash comparison and without having been recomputed: " + " -> ".join(cfg.witness_path(ENTRY, rn, avoiding=fresh_edges + hn) or cfg.witness_path(ENTRY, rn, avoiding=fresh_edges + cn)), r)
+    for r in rets:
+        if r not in cached:
+            ctx.undecided("R2", "DOM", f, "return of something else than the cached dictionary", f"`{src(r)[:60]}` cannot be related to the cache attribute self.{CA}", r)
+    if cached:
+        ctx.ob("R2", "DOM", f, "returns", True, f"{len(rets)} returns, {len(cached)} of the cache")
+    else:
+        ctx.undecided("R2", "DOM", f, "returns", "no return of the cached dictionary located")
+    # the collection the walk fills: a local that is subscripted-and-appended / item-assigned
+    coll = set()
+    for n in body_walk(f.node):
+        if isinstance(n, ast.Call) and isinstance(n.func, ast.Attribute) and n.func.attr in ("append", "extend", "add"):
+            b = n.func.value  # P[k].append(v) / P.setdefault(k, []).append(v)
+            if isinstance(b, ast.Subscript) and isinstance(b.value, ast.Name):
+                coll.add(b.value.id)
+            elif isinstance(b, ast.Call) and isinstance(b.func, ast.Attribute) and b.func.attr in ("setdefault", "get") and isinstance(b.func.value, ast.Name):
+                coll.add(b.func.value.id)
+        if isinstance(n, (ast.Assign, ast.AugAssign)):
+            for t in (n.targets if isinstance(n, ast.Assign) else [n.target]):
+                if isinstance(t, ast.Subscript) and isinstance(t.value, ast.Name):
+                    coll.add(t.value.id)
+    coll -= set(params(f.node))
+    # the cached value is a plain dict (handing out the collecting defaultdict lets a failed lookup add phantom keys)
+    for s, v in sets_c:
+        val = _inl(f, v, stop=coll) if v is not None else None
+        verdict = None
+        if val is None:
+            pass
+        elif _is_call(val, "dict") or isinstance(val, (ast.Dict, ast.DictComp)):
+            verdict = True
+        else:
+            base = val.func.value if isinstance(val, ast.Call) and isinstance(val.func, ast.Attribute) and val.func.attr == "copy" and not val.args else \
+                val.args[0] if _is_call(val, "copy", "deepcopy") and len(val.args) == 1 else val
+            if isinstance(base, ast.Name):
+                defs = [_inl(f, d, stop=coll) for _s, d in assignments_to(f.node, base.id) if d is not None]
+                if any(_is_call(d, "defaultdict") for d in defs):
+                    verdict = False
+                elif defs and all(_is_call(d, "dict", "OrderedDict") or isinstance(d, (ast.Dict, ast.DictComp)) for d in defs):
+                    verdict = True
+        if verdict is None:
+            ctx.undecided("R2", "AGREE", f, "cache is a plain dict copy", f"cannot tell what kind of mapping `{src(v)[:60]}` is", s)
+        else:
+            ctx.ob("R2", "AGREE", f, "cache is a plain dict copy", verdict, "the cached/returned view is a plain dictionary" if verdict else
+                   f"the cached view is {src(v)}: handing out the collecting defaultdict lets a failed lookup add phantom keys to the view", s)
+    # hash and cache are stored together, after the walk of self.tree
+    walk_calls = [c for c in fn_calls(f.node) if isinstance(c.func, ast.Attribute) and "reconstruct" in c.func.attr]
+    if not walk_calls or not sets_h or not sets_c:
+        ctx.undecided("R2", "AGREE", f, "hash and cache stored together after the walk", "the Reconstructor walk of the tree (or the stores) not located in as_dict")
+    else:
+        why = []
+        if not all(any(dotted(n) == TREE for n in ast.walk(_inl(f, ast.Tuple(elts=list(c.args) + [k.value for k in c.keywords], ctx=ast.Load())))) for c in walk_calls):
+            why.append("the walk is not over self.tree")
+        if not all(v is not None and _is_tree_hash(_inl(f, v)) for _s, v in sets_h):
+            why.append("the stored hash is not hash(self.tree): " + ", ".join(src(v) for _s, v in sets_h))
+        wn = [cfg.node(fv.stmt_of(c)) for c in walk_calls if cfg.has(fv.stmt_of(c))]
+        for n in hn + cn:
+            if not any(cfg.dominates(w, n) for w in wn):
+                why.append(f"`{cfg.describe(n)}` is not preceded by the walk")
+            if cfg.in_cycle(n):
+                why.append(f"`{cfg.describe(n)}` happens while the walk is still going on")
+        # hash fresh => cache fresh: wherever the hash is stored the cache is stored too (before, or inevitably after)
+        for n in hn:
+            if not any(cfg.dominates(c, n) for c in cn) and cfg.reaches(n, EXIT, avoiding=cn):
+                why.append(f"`{cfg.describe(n)}` can be reached/left without storing the cache")
+        if coll:
+            for s, v in sets_c:
+                if v is None or not (names_in(_inl(f, v, stop=coll)) & coll):
+                    why.append(f"the cached value `{src(v)}` is not made from the collected properties ({sorted(coll)})")
+        ctx.ob("R2", "AGREE", f, "hash and cache stored together after the walk", not why,
+               "hash(self.tree) and the walked properties of self.tree are stored together, after the walk" if not why else "; ".join(why))
+    # a new profile starts without a cached dictionary: the initial hash cannot equal a hash
+    init = ctx.repo.func(f"{MOD}.C2Profile.__init__")
+    iv = [v for s, a, v in _self_stores(init.node) if a == HA]
+    if not iv and HA in ctx.repo.class_attrs(f"{MOD}.C2Profile"):
+        iv = [ctx.repo.class_attrs(f"{MOD}.C2Profile")[HA]]
+    if not iv or any(v is None or not isinstance(_inl(init, v), ast.Constant) for v in iv):
+        ctx.undecided("R2", "AGREE", init, "cache reset in __init__", f"initial value of self.{HA} not located as a constant")
+    else:
+        ok = all(not isinstance(_inl(init, v).value, (int, float)) or _inl(init, v).value is None for v in iv)
+        ctx.ob("R2", "AGREE", init, "cache reset in __init__", ok, "a new profile starts with no cached dictionary" if ok else f"self.{HA} starts as a number that a hash can equal")
+    # nobody else writes the cache (resetting the hash to None - invalidation - is harmless)
+    def writes(fn):
+        out = []
+        for s in statements(fn):
+            tg = s.targets if isinstance(s, ast.Assign) else [s.target] if isinstance(s, (ast.AugAssign, ast.AnnAssign)) else []
+            for t in tg:
+                for e in (t.elts if isinstance(t, (ast.Tuple, ast.List)) else [t]):
+                    if isinstance(e, ast.Attribute) and e.attr in (HA, CA):
+                        v = getattr(s, "value", None)
+                        if not (e.attr == HA and isinstance(s, (ast.Assign, ast.AnnAssign)) and isinstance(v, ast.Constant) and v.value is None):
+                            out.append(s)
+            if isinstance(s, ast.Expr) and _is_call(s.value, "setattr") and len(s.value.args) == 3 and _c(s.value.args[1]) in (HA, CA):
+                out.append(s)
+        return out
+
+    ft = ctx.repo.func(f"{MOD}.C2Profile.from_text")
+    touch = writes(ft.node)
     ctx.ob("R2", "AGREE", ft, "from_text leaves the cache key alone", not touch, "from_text replaces the tree without pre-seeding the cache" if not touch else "from_text writes the cache key")
-    for other in ctx.repo.methods("c2profile.C2Profile"):
-        if other.qualname.split(".")[-1] in ("as_dict", "__init__"):
+    mine = {h.fq for h in _scope(ctx, f)}
+    for other in ctx.repo.module(MOD).funcs.values():
+        if other.fq in (f.fq, init.fq, ft.fq) or other.fq in mine or (other.parent is not None and other.parent.fq == f.fq):
             continue
-        w = [s for s in statements(other.node) if isinstance(s, (ast.Assign, ast.AugAssign)) and any((dotted(t) or "").startswith("self._dict_") for t in (s.targets if isinstance(s, ast.Assign) else [s.target]))]
+        w = writes(other.node)
+        if w and other.qualname not in _baseline_funcs(MOD):
+            # a helper outside the baseline vocabulary that is only ever called from as_dict (or not called at all any
+            # more because the normaliser inlined it there) is a part of as_dict
+            callers = {g.fq for g in ctx.repo.all_funcs() if g.fq != other.fq for c in fn_calls(g.node)
+                       if (lambda cal: cal.kind == "func" and cal.func is not None and cal.func.fq == other.fq)(ctx.rs.resolve_call(g, c))}
+            if callers <= mine:
+                continue
         if w:
             ctx.ob("R2", "AGREE", other, "writes the dictionary cache", False, f"{other.qualname} writes the dictionary cache outside as_dict", w[0])
+
+
+# ============================================================================================================= R3
+def _resolve_attr_func(ctx, cname, v):
+    """The package function a class attribute `name = Class.method` / `name = method` is bound to."""
+    d = dotted(v)
+    if not d:
+        return None
+    for fq in (f"{MOD}.{d}", f"{MOD}.{cname}.{d}"):
+        if ctx.repo.has_func(fq):
+            return ctx.repo.func(fq)
+    return None
+
+
+def _str_set(ctx, f, e):
+    v = _const(ctx, f, e)
+    if isinstance(v, dict):
+        v = list(v)
+    if isinstance(v, (list, tuple, set, frozenset)) and v and all(isinstance(x, str) for x in v):
+        return set(v)
+    return None
+
+
+def _name_set(ctx, f, atom):
+    """The set of names a positive fact restricts a value to: `x in (..)`, `x == ".."`, `x == "a" or x in (..)`."""
+    if isinstance(atom, ast.Compare) and len(atom.ops) == 1:
+        if isinstance(atom.ops[0], ast.In):
+            return _str_set(ctx, f, atom.comparators[0])
+        if isinstance(atom.ops[0], ast.Eq):
+            for a in (atom.left, atom.comparators[0]):
+                if isinstance(_c(a), str):
+                    return {_c(a)}
+    if isinstance(atom, ast.BoolOp) and isinstance(atom.op, ast.Or):
+        parts = [_name_set(ctx, f, v) for v in atom.values]
+        if all(p is not None for p in parts):
+            return set().union(*parts)
+    return None
+
+
+def _callee_alternatives(f, func, extra=()):
+    """The bound methods of self an expression in call position may evaluate to, each with the facts under which it is
+    chosen: `self.m`, `self.a if t else self.b`, `getattr(self, "a" if t else "b")` (temporaries inlined)."""
+    e = _inl(f, func)
+    if isinstance(e, ast.IfExp):
+        t, fl = [], []
+        _atoms(_inl(f, e.test), True, t)
+        _atoms(_inl(f, e.test), False, fl)
+        return _callee_alternatives(f, e.body, tuple(extra) + tuple(t)) + _callee_alternatives(f, e.orelse, tuple(extra) + tuple(fl))
+    if isinstance(e, ast.Attribute) and dotted(e.value) == "self":
+        return [(e.attr, list(extra))]
+    if _is_call(e, "getattr") and len(e.args) >= 2 and dotted(e.args[0]) == "self":
+        n = _inl(f, e.args[1])
+        if isinstance(n, ast.IfExp):
+            t, fl = [], []
+            _atoms(_inl(f, n.test), True, t)
+            _atoms(_inl(f, n.test), False, fl)
+            out = []
+            for br, facts in ((n.body, t), (n.orelse, fl)):
+                if isinstance(_c(_inl(f, br)), str):
+                    out.append((_c(_inl(f, br)), list(extra) + facts))
+            return out
+        if isinstance(_c(n), str):
+            return [(_c(n), list(extra))]
+    return []
 
 
 def r3(ctx, g):
     n = 0
     for cname, origins in BUILDER_RULES.items():
-        attrs = ctx.repo.class_attrs(f"c2profile.{cname}")
+        attrs = ctx.repo.class_attrs(f"{MOD}.{cname}")
         al = aliases_of(g, origins)
         for a, v in attrs.items():
-            d = dotted(v) or ""
-            if not d.startswith("ConfigBlock."):
+            h = _resolve_attr_func(ctx, cname, v)
+            if h is None or h.cls is None or len(params(h.node)) != 3:
                 continue
-            helper = d.split(".", 1)[1]
-            if helper not in HELPER_ARITY:
+            helper = h.qualname.split(".")[-1]
+            sh = _helper_shape(ctx, h)
+            if sh is None and helper in HELPER_ARITY:
+                sh = (HELPER_FIXED_NAME.get(helper), HELPER_ARITY[helper], True)
+            text = f"{a} = {h.qualname}"
+            if sh is None:
+                ctx.undecided("R3", "GRAM", f"c2profile.py::{cname}", text, f"cannot read off the tree {h.qualname} adds to self.tree.children")
                 continue
             n += 1
-            name = HELPER_FIXED_NAME.get(helper, a)
-            ar = HELPER_ARITY[helper]
-            ok = name in al and ar in al[name]
-            ctx.ob("R3", "GRAM", f"c2profile.py::{cname}", f"{a} = ConfigBlock.{helper}", ok,
-                   f"builder emits tree {name!r} with {ar} string(s); grammar rule(s) {origins} " + (f"have that alias with arities {sorted(al[name])}" if name in al else "have no such alias"))
+            name = sh[0] or a
+            ar = sh[1]
+            ok = name in al and ar in al[name] and sh[2]
+            ctx.ob("R3", "GRAM", f"c2profile.py::{cname}", text, ok,
+                   f"builder emits tree {name!r} with {ar} string(s); grammar rule(s) {origins} " + (f"have that alias with arities {sorted(al[name])}" if name in al else "have no such alias")
+                   + ("" if sh[2] else "; a child is not built as string[STRING] (the grammar's `string: STRING`)"))
         # reverse direction for the blocks that enumerate their options (enable-style lists)
         if cname in ("ExecuteOptionsBlock", "BeaconGateBlock"):
-            missing = sorted(set(al) - set(attrs))
-            ctx.ob("R3", "GRAM", f"c2profile.py::{cname}", "covers grammar alternatives", not missing, f"grammar aliases of {origins} without a builder attribute: {missing}")
+            body = ctx.repo.cls(f"{MOD}.{cname}").body
+            have = set(attrs) | {st.name for st in body if isinstance(st, (ast.FunctionDef, ast.AsyncFunctionDef))}
+            missing = sorted(set(al) - have)
+            dynamic = [st for st in body if not isinstance(st, (ast.Assign, ast.AnnAssign, ast.FunctionDef, ast.AsyncFunctionDef, ast.Pass))]
+            if missing and dynamic:
+                ctx.undecided("R3", "GRAM", f"c2profile.py::{cname}", "covers grammar alternatives", f"the class body binds names by other means than assignments (`{src(dynamic[0])[:60]}`); not found as attributes: {missing}")
+            else:
+                ctx.ob("R3", "GRAM", f"c2profile.py::{cname}", "covers grammar alternatives", not missing, f"grammar aliases of {origins} without a builder attribute: {missing}")
     ctx.rep.count("builder_attributes", n, floor=40)
     # C2Profile.__name__ == "start"; set_option builds option[OPTION, string]
-    attrs = ctx.repo.class_attrs("c2profile.C2Profile")
+    attrs = ctx.repo.class_attrs(f"{MOD}.C2Profile")
     ctx.ob("R3", "GRAM", "c2profile.py::C2Profile", "__name__", _c(attrs.get("__name__")) == "start" and "start" in g.by_origin, f"root tree name {_c(attrs.get('__name__'))!r} (grammar start rule 'start')")
-    so = ctx.repo.func("c2profile.C2Profile.set_option")
-    trees = [c for c in fn_calls(so.node) if dotted(c.func) == "Tree"]
-    ok = False
-    detail = "set_option does not build Tree('option', [Token('OPTION', ..), Tree('string', [Token('STRING', ..)])])"
+    so = ctx.repo.func(f"{MOD}.C2Profile.set_option")
     opt_rules = [r for r in g.rules if r.tree_name == "option"]
-    if trees and opt_rules:
-        t = trees[0]
-        kids = t.args[1].elts if len(t.args) > 1 and isinstance(t.args[1], ast.List) else []
-        shape = []
-        for k in kids:
-            if isinstance(k, ast.Call) and dotted(k.func) == "Token":
-                shape.append((_c(k.args[0]), True))
-            elif isinstance(k, ast.Call) and dotted(k.func) == "Tree":
-                shape.append((_c(k.args[0]), False))
-        ok = _c(t.args[0]) == "option" and tuple(shape) == opt_rules[0].kept
-        detail = f"builds option{shape}; grammar `option` keeps {opt_rules[0].kept}"
-    ctx.ob("R3", "GRAM", so, "Tree('option', [OPTION, string])", ok, detail)
-    base = ctx.repo.func("c2profile.ConfigBlock.set_option")
-    trees = [c for c in fn_calls(base.node) if dotted(c.func) == "Tree"]
-    ok = len(trees) == 2 and dotted(trees[0].args[0]) == params(base.node)[1] and _c(trees[1].args[0]) == "string" and "Token('STRING'" in src(trees[1])
+    app = [(_tree_parts(so, x), x) for _c0, _r, x in _appended(so, lambda d: d == TREE + ".children")]
+    app = [(tp, x) for tp, x in app if tp is not None]
+    ks = _kids(so, app[0][0][1]) if len(app) == 1 else None
+    if ks is None or not opt_rules:
+        ctx.undecided("R3", "GRAM", so, "Tree('option', [OPTION, string])", "the tree set_option appends to self.tree.children (with a literal list of children) not located")
+    else:
+        shape = tuple(_sym(so, k) for k in ks)
+        strings_ok = all(_is_string_tree(so, k) for k in ks if _sym(so, k) == ("string", False))
+        ok = _c(app[0][0][0]) == "option" and shape == opt_rules[0].kept and strings_ok
+        ctx.ob("R3", "GRAM", so, "Tree('option', [OPTION, string])", ok, f"builds {_c(app[0][0][0])}{list(shape)}; grammar `option` keeps {opt_rules[0].kept}" + ("" if strings_ok else "; the string child is not string[STRING]"))
+    base = ctx.repo.func(f"{MOD}.ConfigBlock.set_option")
     srule = [r for r in g.by_origin.get("string", [])]
-    ok = ok and len(srule) == 1 and srule[0].kept == (("STRING", True),)
-    ctx.ob("R3", "GRAM", base, "Tree(option, [string[STRING]])", ok, "block options are built as <alias>[string[STRING]] like the grammar's `string: STRING`" if ok else "set_option tree shape differs from the grammar")
-    scb = ctx.repo.func("c2profile.ConfigBlock.set_config_block")
-    ok = any(src(c) == "Tree(option, config_block.tree.children)" for c in fn_calls(scb.node))
-    ctx.ob("R3", "AGREE", scb, "Tree(option, config_block.tree.children)", ok, "a child block is spliced under the option's name" if ok else "set_config_block does not splice the child's children under the option name")
-    # DataTransformBlock
-    dt = ctx.repo.func("c2profile.DataTransformBlock.tree")
+    s_ok = len(srule) == 1 and srule[0].kept == (("STRING", True),)
+    sh = _helper_shape(ctx, base)
+    if sh is None and not _appended(base, lambda d: d == TREE + ".children"):
+        ctx.undecided("R3", "GRAM", base, "Tree(option, [string[STRING]])", "the tree ConfigBlock.set_option appends to self.tree.children not located")
+    else:
+        ok = sh == (None, 1, True) and s_ok
+        ctx.ob("R3", "GRAM", base, "Tree(option, [string[STRING]])", ok, "block options are built as <alias>[string[STRING]] like the grammar's `string: STRING`" if ok else f"set_option tree shape {sh} differs from the grammar (<option>[string[STRING]])")
+    # every other helper that builds string children builds them as string[STRING] too (a helper whose shape cannot be read
+    # off although it appends a Tree is suspicious only if it is bound somewhere - reported there)
+    scb = ctx.repo.func(f"{MOD}.ConfigBlock.set_config_block")
+    ps = params(scb.node)
+    app = [(_tree_parts(scb, x), x) for _c0, _r, x in _appended(scb, lambda d: d == TREE + ".children")]
+    app = [(tp, x) for tp, x in app if tp is not None]
+    if len(app) != 1 or len(ps) < 3:
+        ctx.undecided("R3", "AGREE", scb, "Tree(option, config_block.tree.children)", "the tree set_config_block appends to self.tree.children not located")
+    else:
+        data, kids = app[0][0]
+        while (_is_call(kids, "list", "tuple") and len(kids.args) == 1) or (isinstance(kids, ast.List) and len(kids.elts) == 1 and isinstance(kids.elts[0], ast.Starred)):
+            kids = _inl(scb, kids.args[0] if isinstance(kids, ast.Call) else kids.elts[0].value)
+        ok = isinstance(data, ast.Name) and data.id == ps[1] and dotted(kids) == f"{ps[2]}.tree.children"
+        ctx.ob("R3", "AGREE", scb, "Tree(option, config_block.tree.children)", ok, "a child block is spliced under the option's name" if ok else f"set_config_block appends Tree({src(data)}, {src(kids)}): not the child's children under the option name")
+    # DataTransformBlock: tree == data_transform[steps[<list add_step fills>], termination[<list add_termination fills>]]
+    dt = ctx.repo.func(f"{MOD}.DataTransformBlock.tree")
     dtr = [r for r in g.by_origin.get("data_transform", [])]
     shape_ok = len(dtr) == 1 and dtr[0].kept == (("steps", False), ("termination", False))
-    text = " ".join(src(c) for c in fn_calls(dt.node) if dotted(c.func) == "Tree")
-    b_ok = "Tree('data_transform', [Tree('steps', self.steps), Tree('termination', self.termination)])" in text
-    ctx.ob("R3", "GRAM", dt, "data_transform[steps, termination]", shape_ok and b_ok, f"grammar data_transform keeps {dtr[0].kept if dtr else None}; builder builds it={b_ok}")
-    init = ctx.repo.func("c2profile.DataTransformBlock.__init__")
+    fills = {}
+    for role, meth in (("steps", "add_step"), ("termination", "add_termination")):
+        m = ctx.repo.func(f"{MOD}.DataTransformBlock.{meth}")
+        app = _appended(m, lambda d: bool(d) and d.startswith("self.") and d.count(".") == 1)
+        got = {r for _c0, r, x in app if _tree_parts(m, x) is not None} or {r for _c0, r, x in app}
+        fills[role] = next(iter(got)) if len(got) == 1 else None
+    found = None
+    for r in [s for s in statements(dt.node) if isinstance(s, ast.Return) and s.value is not None]:
+        tp = _tree_parts(dt, r.value)
+        for k in (_kids(dt, tp[1]) or []) if tp else []:
+            tp2 = _tree_parts(dt, k)
+            if tp2 is not None and _c(tp2[0]) == "data_transform":
+                found = _kids(dt, tp2[1])
+    if found is None or None in fills.values() or not dtr:
+        ctx.undecided("R3", "GRAM", dt, "data_transform[steps, termination]", f"the Tree('data_transform', [..]) returned by DataTransformBlock.tree (or the lists add_step/add_termination fill: {fills}) not located")
+    else:
+        got = []
+        for k in found:
+            tp = _tree_parts(dt, k)
+            got.append((_c(tp[0]), dotted(tp[1])) if tp else (None, None))
+        want = [(name, fills.get(name)) for name, _t in dtr[0].kept]
+        b_ok = got == want
+        ctx.ob("R3", "GRAM", dt, "data_transform[steps, termination]", shape_ok and b_ok, f"grammar data_transform keeps {dtr[0].kept}; builder builds {got}, lists filled by add_step/add_termination: {fills}")
+    init = ctx.repo.func(f"{MOD}.DataTransformBlock.__init__")
     tr = aliases_of(g, ["transform_statement"])
     te = aliases_of(g, ["termination_statement"])
-    from csverif.q import dominating_conditions
     sets = []
     for c in fn_calls(init.node):
-        if dotted(c.func) in ("self.add_step", "self.add_termination") and len(c.args) == 2:
-            # the innermost membership test that holds where this call is made names the step set it serves
-            mem = [(n, pol) for t, pol, n in dominating_conditions(ctx, init, c) if isinstance(n, ast.Compare) and len(n.ops) == 1 and isinstance(n.ops[0], ast.In) and _c(n.comparators[0])]
-            pos = [n for n, pol in mem if pol]
+        for meth, extra in _callee_alternatives(init, c.func):
+            if meth not in ("add_step", "add_termination"):
+                continue
+            m = ctx.repo.func(f"{MOD}.DataTransformBlock.{meth}")
+            mp = params(m.node)
+            if len(mp) < 3:
+                continue
+            arg = bind_args(c, m.node, skip_self=True).get(mp[2])
+            if arg is None:
+                continue
+            # the innermost positive restriction of a name to a constant set that holds where this call is made names the
+            # step set it serves
+            pos = [_name_set(ctx, init, a) for a, pol in _facts_at(ctx, init, c) + list(extra) if pol]
+            pos = [p for p in pos if p]
             if pos:
-                vals = _c(pos[-1].comparators[0])
-                sets.append((set(v.replace("-", "_") for v in vals), dotted(c.func).split(".")[-1], 0 if (isinstance(c.args[1], ast.Constant) and c.args[1].value is None) else 1))
-    want_step0 = {a for a, ar in tr.items() if 0 in ar}
-    want_term0 = {a for a, ar in te.items() if 0 in ar}
-    want_term1 = {a for a, ar in te.items() if 1 in ar}
-    got_step0 = set().union(*[s for s, fn, ar in sets if fn == "add_step" and ar == 0]) if sets else set()
-    got_term0 = set().union(*[s for s, fn, ar in sets if fn == "add_termination" and ar == 0]) if sets else set()
-    got_term1 = set().union(*[s for s, fn, ar in sets if fn == "add_termination" and ar == 1]) if sets else set()
-    ctx.ob("R3", "GRAM", init, "step/termination name sets", got_step0 == want_step0 and got_term0 == want_term0 and got_term1 == want_term1,
-           f"no-arg steps {sorted(got_step0)} vs grammar {sorted(want_step0)}; no-arg terminations {sorted(got_term0)} vs {sorted(want_term0)}; 1-arg terminations {sorted(got_term1)} vs {sorted(want_term1)}")
+                sets.append((set(v.replace("-", "_") for v in pos[-1]), meth, 0 if _c(_inl(init, arg)) is None and isinstance(_inl(init, arg), ast.Constant) else 1))
+    want = {("add_step", 0): {a for a, ar in tr.items() if 0 in ar}, ("add_termination", 0): {a for a, ar in te.items() if 0 in ar}, ("add_termination", 1): {a for a, ar in te.items() if 1 in ar},
+            ("add_step", 1): {a for a, ar in tr.items() if 1 in ar}}
+    label = {("add_step", 0): "no-arg steps", ("add_termination", 0): "no-arg terminations", ("add_termination", 1): "1-arg terminations", ("add_step", 1): "1-arg steps"}
+    wrong, unlocated, detail = [], [], []
+    for key, w in want.items():
+        here = [s for s, fn, ar in sets if (fn, ar) == key]
+        got = set().union(*here) if here else set()
+        if key == ("add_step", 1) and not here:
+            continue  # steps with an argument are the fall-through case: no positive restriction needed (checked if there is one)
+        detail.append(f"{label[key]} {sorted(got)} vs grammar {sorted(w)}")
+        if not here and w:
+            unlocated.append(label[key])
+        elif got != w:
+            wrong.append(label[key])
+    if wrong or not unlocated:
+        ctx.ob("R3", "GRAM", init, "step/termination name sets", not wrong, "; ".join(detail))
+    else:
+        ctx.undecided("R3", "GRAM", init, "step/termination name sets", f"no add_step/add_termination call under a membership test located for: {unlocated}; " + "; ".join(detail))
     want_step1 = {a for a, ar in tr.items() if 1 in ar}
     ctx.ob("R3", "GRAM", "c2profile.lark::transform_statement", "1-arg steps", want_step1 == {"append", "prepend"}, f"grammar 1-arg transform steps {sorted(want_step1)} (everything else with a value falls through to add_step)")
